@@ -944,12 +944,33 @@ func regRun(e *Env) {
 		before = len(got)
 		D := []time.Duration{time.Minute, 10 * time.Minute, 37 * time.Minute}[g.S.Choose(3)]
 		t0 := e.S.Now()
-		if slowServer {
+		// the server may be pinging the client all the while, more often than the
+		// client pings: the client's own PINGs keep their period regardless
+		srvPing := time.Duration(0)
+		if g.S.Choose(3) == 0 {
+			base := pingFreq
+			if base <= 0 {
+				base = 30 * time.Second
+			}
+			srvPing = base / time.Duration(2+g.S.Choose(4))
+			e.S.Count("fault.server-pings-more-often-than-the-client")
+		}
+		if slowServer || srvPing > 0 {
 			// keep draining so that the window never stalls the client's pinger
+			step := 5 * time.Second
+			if srvPing > 0 && srvPing < step {
+				step = srvPing
+			}
+			nextPing := t0
 			for e.S.Now()-t0 < D {
-				simrt.Sleep(5 * time.Second)
+				if srvPing > 0 && e.S.Now() >= nextPing {
+					p.send(fmt.Sprintf("PING :srv-%d", int(e.S.Now()/time.Second)))
+					nextPing += srvPing
+				}
+				simrt.Sleep(step)
 				recvAll(time.Millisecond)
 			}
+			simrt.Settle(10 * time.Second)
 		} else {
 			simrt.Sleep(D)
 		}
@@ -959,6 +980,7 @@ func regRun(e *Env) {
 		for _, ln := range got[before:] {
 			if strings.HasPrefix(ln, "PING :") {
 				pings++
+			} else if srvPing > 0 && strings.HasPrefix(ln, "PONG :srv-") {
 			} else if !strings.HasPrefix(ln, "MODE ") && !strings.HasPrefix(ln, "WHO ") {
 				e.Violation("idle-traffic", "connection %d: unexpected line while idle: %q", conn, clip(ln))
 				return
